@@ -12,7 +12,7 @@ Edge == <<[len |-> 480, shape |-> "data"], [len |-> 481, shape |-> "data"], [len
 
 Base == [mfs_c |-> 4096, mfs_l |-> 4096, iw_c |-> 2048, ow_c |-> 2048, iw_l |-> 2048, ow_l |-> 2048, credit |-> 10, snd |-> 2, rcv |-> 0, buf |-> 256,
          mms |-> 0, chunks |-> <<65536>>, dir |-> "c2l", batch |-> FALSE, auto |-> FALSE, mt |-> FALSE, pipe |-> 65536, links |-> 1, sessions |-> 1, msgs |-> Mixed]
-Pal == [mfs_c |-> {512, 1000, 65536}, mfs_l |-> {512, 777, 65536}, iw_c |-> {1, 5000}, ow_c |-> {1, 3}, iw_l |-> {1, 2, 5}, ow_l |-> {1, 5000}, credit |-> {0, 1, 2, 200, -3}, mms |-> {300, 1500},
+Pal == [mfs_c |-> {512, 1000, 65536}, mfs_l |-> {512, 777, 65536}, iw_c |-> {1, 5000}, ow_c |-> {1, 3}, iw_l |-> {1, 2, 5}, ow_l |-> {1, 5000}, credit |-> {0, 1, 2, 200, -3, -2}, mms |-> {300, 1500},
         snd |-> {0, 1}, rcv |-> {1}, buf |-> {1, 2}, chunks |-> {<<1>>, <<3, 7>>, <<500, 1, 12>>}, dir |-> {"l2c"}, batch |-> {TRUE}, auto |-> {TRUE},
         mt |-> IF Deep THEN {TRUE} ELSE {}, links |-> {2, 3}, sessions |-> {2}, msgs |-> {Small, Many, Edge}]
 \* (the capacity of the in-memory transport is not varied: with a few dozen bytes of transport buffer both engines block in a write
